@@ -65,8 +65,17 @@ def scan():
         if imports_random:
             unknown.append((rel, "<module>", "stdlib `random` imported"))
 
+        GEN_CTORS = ("np.random.RandomState", "numpy.random.RandomState", "np.random.default_rng", "numpy.random.default_rng",
+                     "np.random.Generator", "RandomState", "default_rng")
+
         def visit_func(fn, qual):
             params = {a.arg for a in fn.args.args + fn.args.kwonlyargs}
+            # a generator built in a DEFAULT ARGUMENT is created once, at definition time, and shared by every call in the
+            # process: its stream carries over from one fit / run to the next, which no per-call table entry can express
+            for dflt in list(fn.args.defaults) + [d for d in fn.args.kw_defaults if d is not None]:
+                for c in ast.walk(dflt):
+                    if isinstance(c, ast.Call) and (_name(c.func) or "") in GEN_CTORS:
+                        unknown.append((rel, qual, f"generator constructed in a default argument (line {c.lineno}): shared across calls"))
             calls = sorted((n for n in ast.walk(fn) if isinstance(n, ast.Call)), key=lambda n: (n.lineno, n.col_offset))
             for c in calls:
                 n = _name(c.func) or ""
@@ -88,6 +97,13 @@ def scan():
                     sites.append((rel, qual, "draw", n, "attr-generator", c.lineno))
                 elif last == "rvs":
                     unknown.append((rel, qual, f"scipy-style .rvs() (line {c.lineno})"))
+        def visit_static(stmt, qual):
+            # module-level / class-level statements run once at import: a generator or a seeding call there is process-wide state
+            for c in ast.walk(stmt):
+                if isinstance(c, ast.Call):
+                    n = _name(c.func) or ""
+                    if n in GEN_CTORS or n in ("np.random.seed", "numpy.random.seed"):
+                        unknown.append((rel, qual, f"{n} at import time (line {c.lineno}): process-wide shared random state"))
         for node in tree.body:
             if isinstance(node, ast.FunctionDef):
                 visit_func(node, node.name)
@@ -95,6 +111,10 @@ def scan():
                 for f in node.body:
                     if isinstance(f, ast.FunctionDef):
                         visit_func(f, f"{node.name}.{f.name}")
+                    else:
+                        visit_static(f, f"{node.name}.<class body>")
+            else:
+                visit_static(node, "<module>")
     # classes seeding the GLOBAL generator from an attribute
     for (rel, qual, kind, what, arg, ln) in sites:
         if kind == "seed" and arg.startswith("attr:") and "." in qual:
